@@ -408,13 +408,17 @@ type run struct {
 }
 
 type observed struct {
-	Panic     string      `json:"panic,omitempty"`
-	Runs      []run       `json:"runs,omitempty"`
-	Status    int         `json:"status"`
-	Allow     []string    `json:"allow,omitempty"` // sorted set of the tokens of all Allow header lines
-	MRPattern string      `json:"matched_pattern,omitempty"`
-	MRParams  [][2]string `json:"matched_params,omitempty"`
-	HasMR     bool        `json:"has_matched_route,omitempty"`
+	Panic      string      `json:"panic,omitempty"`
+	Runs       []run       `json:"runs,omitempty"`
+	Status     int         `json:"status"`
+	Allow      []string    `json:"allow,omitempty"` // sorted set of the tokens of all Allow header lines
+	MRPattern  string      `json:"matched_pattern,omitempty"`
+	MRParams   [][2]string `json:"matched_params,omitempty"`
+	HasMR      bool        `json:"has_matched_route,omitempty"`
+	NoSpy      bool        `json:"no_spy,omitempty"`     // entry point without a builder (middleware.Serve): the matched route cannot be observed
+	MRGet      [][2]string `json:"params_get,omitempty"` // name, RouteParams.Get(name) for every name of the matched route
+	MRGetOK    [][2]string `json:"params_getok,omitempty"`
+	MRGetOKBad string      `json:"params_getok_flags,omitempty"` // first name whose GetOK flags are not (one value, has key, has value iff non-empty)
 }
 
 func (o observed) String() string {
@@ -432,7 +436,7 @@ func (o observed) String() string {
 		s += " no handler ran"
 	}
 	if o.HasMR {
-		s += fmt.Sprintf(" matched=%q %v", o.MRPattern, o.MRParams)
+		s += fmt.Sprintf(" matched=%q %v Get=%v GetOK=%v", o.MRPattern, o.MRParams, o.MRGet, o.MRGetOK)
 	}
 	return s
 }
@@ -478,6 +482,9 @@ func conforms(o observed, e expect) string {
 				return "wrong-params"
 			}
 		}
+		if o.NoSpy {
+			return ""
+		}
 		// the matched route the request carries names the same bindings
 		if !o.HasMR {
 			return "matched-route-mismatch"
@@ -489,6 +496,23 @@ func conforms(o observed, e expect) string {
 			if v, ok := want[kv[0]]; !ok || v != kv[1] {
 				return "matched-route-mismatch"
 			}
+		}
+		// ... through every accessor of RouteParams: direct slice access (above), Get, GetOK
+		if len(o.MRGet) != len(want) || len(o.MRGetOK) != len(want) {
+			return "route-params-accessor-mismatch"
+		}
+		for _, kv := range o.MRGet {
+			if v, ok := want[kv[0]]; !ok || v != kv[1] {
+				return "route-params-get-mismatch"
+			}
+		}
+		for _, kv := range o.MRGetOK {
+			if v, ok := want[kv[0]]; !ok || v != kv[1] {
+				return "route-params-getok-mismatch"
+			}
+		}
+		if o.MRGetOKBad != "" {
+			return "route-params-getok-mismatch"
 		}
 		return ""
 	}
@@ -579,6 +603,19 @@ var knownDefectSuffixes = []string{
 	"trailing-slash-template-not-routed", "root-template-under-basepath-not-routed",
 	"composite-segment-matched-as-whole-segment", "placeholder-after-literal-prefix-not-routed",
 	"placeholder-names-with-one-go-name",
+}
+
+// viaSuffix: a failure that only an uncommon exported entry point shows says which one.
+func viaSuffix(class, via string) string {
+	if class == "" || via == "routes" || via == "api" {
+		return class
+	}
+	for _, k := range knownDefectSuffixes {
+		if strings.Contains(class, "/"+k) {
+			return class
+		}
+	}
+	return class + "/entry-point-" + via
 }
 
 // judgeIn judges an observation made under a configuration of the library. Debug logging must
